@@ -16,6 +16,56 @@ from vlib import log
 PID = "C18"
 
 
+GATE_REFUSALS = {"InconsistentBaseField", "parse-error", "ProofDeserializationError"}
+
+
+def gate(v, exe, wd, tier, seed):
+    """claims of MC_FieldGate.tla replayed through verify() on honest proofs over each field"""
+    import c01, starkgen
+    rg = vlib.run_tlc("MC_FieldGate", "MC_FieldGate", workers=1, env={"GATE_COMPARE": "equal"}, tag="MC_FieldGate_equal")
+    if not rg.ok:
+        v.violation("model/gate/" + str(rg.violation), "MC_FieldGate.tla: %s violated for the comparison by equality" % rg.violation, {"tlc": rg.out[-1500:]})
+    rp = vlib.run_tlc("MC_FieldGate", "MC_FieldGate", workers=1, env={"GATE_COMPARE": "prefix"}, tag="MC_FieldGate_prefix")
+    if rp.violation != "GateSound":
+        raise vlib.ToolError("self-test: the field gate comparing by prefix is not refuted (%s)" % rp.violation)
+    claims = [p for p in rg.printed if "claimed" in p]
+    r, stmts = c01.gen(5, 1)
+    rows = 0
+    for bits in (62, 64, 128):
+        cand = [s for s in stmts if s["t"]["bits"] == bits and s["t"]["ln"] <= 4 and s["t"]["width"] <= 4 and not s["t"]["auxd"] and s["t"]["grind"] == 0]
+        if not cand:
+            raise vlib.ToolError("no statement over the %d-bit field" % bits)
+        for k in range(1 if tier == "quick" else 4):
+            sc = starkgen.scenario(cand[(seed + 7 * k) % len(cand)], k, seed)
+            mine = [c for c in claims if c["field"] == "f%d" % bits]
+            ps, pc = os.path.join(wd, "gate_%d_%d.ndjson" % (bits, k)), os.path.join(wd, "gate_claims_%d.ndjson" % bits)
+            vlib.write_ndjson(ps, [sc])
+            vlib.write_ndjson(pc, [c["claimed"] for c in mine])
+            rc, out, err = vlib.run_harness(exe, ["stark", "fieldgate", "--scenarios", ps, "--claims", pc], timeout=900)
+            if rc != 0:
+                raise vlib.ToolError("fieldgate harness rc=%s: %s" % (rc, err[-300:]))
+            o = json.loads(out.splitlines()[0])
+            if o.get("prove") != "ok":
+                raise vlib.ToolError("fieldgate: honest proof not produced: %s" % str(o)[:200])
+            for c, row in zip(mine, o["rows"]):
+                rows += 1
+                ctx = "f%d/%s, true level %s bits, claimed modulus %s (%d bits)" % (bits, sc["hasher"], o["level"], c["claimed"], c["bits"])
+                if c["admitted"]:
+                    if row["at0"] != "accepted" or row["at_level"] != "accepted":
+                        v.violation("security/gate/honest-refused", "an honest proof is refused under a minimum equal to its level: %s / %s (%s)" % (row["at0"], row["at_level"], ctx), {"scenario": sc, "claim": c})
+                    if not row["above"].startswith("InsufficientConjecturedSecurity"):
+                        v.violation("security/gate/below-minimum", "a proof of level %s verified under a minimum of %s bits gives '%s' (%s)" % (o["level"], o["level"] + 1, row["above"], ctx), {"scenario": sc, "claim": c})
+                else:
+                    for which in ("at0", "above"):
+                        if row[which] not in GATE_REFUSALS:
+                            v.violation("security/gate/foreign-field", "a proof that claims a modulus other than the one of the computation's field is not refused at the gate: verdict '%s' "
+                                        "under a minimum of %s bits - the security level was computed from the claimed field (%s)" % (row[which], 0 if which == "at0" else o["level"] + 1, ctx),
+                                        {"scenario": sc, "claim": c})
+                            break
+    log("[replay] field gate: %d (proof, claimed modulus) pairs through verify() under minimum 0 / level / level+1" % rows)
+    return rows
+
+
 def run(tier, seed):
     t0 = time.time()
     v = vlib.Verdict(PID)
@@ -25,6 +75,8 @@ def run(tier, seed):
     states, trans = r.distinct, r.generated
     if not r.ok:
         v.violation("model/" + str(r.violation), "Security.tla: the documented formula violates %s" % r.violation, {"tlc": r.out[-3000:]})
+    # the field gate of verify(): the level must come from the field the computation is defined over (MC_FieldGate.tla)
+    gate_rows = gate(v, exe, wd, tier, seed)
     shards = 8 if tier == "quick" else 16
     rc, out, err = vlib.run_harness(exe, ["security", "--out", wd, "--shards", str(shards)] + (["--thorough"] if tier == "thorough" else []), timeout=3400)
     if rc != 0:
@@ -70,7 +122,7 @@ def run(tier, seed):
         "rule": "grid rows (field bits 62/64/128 x extension 1..3 x blowup 2..128 x grinding x trace length x collision resistance 96/124/128), "
                 "each with all 255 query counts; neighbours along grinding/extension/collision resistance; policy thresholds level-1/level/level+1; "
                 "option sets with and without the proof's options",
-        "exhaustive": False, "trace_events": events,
+        "field_gate_rows": gate_rows, "exhaustive": False, "trace_events": events,
         "known_finding_occurrences": v.n_known, "new_violations": v.n_new,
     }, time.time() - t0, violations=v.n_new,
         assumptions=["LDE domains above 2^31 cannot be constructed through Context::new and are not tabulated",
